@@ -18,7 +18,7 @@ def tail(p):
     except Exception as e:
         return {"error": str(e)}
 meta = {
-    "seed": name, "breaks_property": pid, "needs_to_manifest": needs,
+    "seed": name, "breaks_property": pid[:3], "needs_to_manifest": needs,
     "produced_by": "fresh sub-agent given only the property text and a scratch worktree of /repo",
     "confirmed_by_me": {
         "how": f"tools/verify_seed.sh {pid} in the scratch worktree /tmp/mut/{pid} (reset to HEAD, demo.diff + patch.diff applied, full workspace suite; then patch reverted, suite again)",
